@@ -148,7 +148,7 @@ struct JSONUtils {
                                 offset += SizeT{4};
                                 offset2 = offset;
 
-                                if ((code >> 8U) != 0xD8U) {
+                                if ((code >> 10U) != 0x36U) {
                                     Unicode::ToUTF<Char_T>(code, stream);
                                     continue;
                                 }
